@@ -55,8 +55,10 @@ EventErrs(e) ==
                  \E g \in 1..Len(e.groups) :
                     e.groups[g][1] = e.out[i] /\ i \in SeqToSet(e.groups[g][2]))
     [] e.a = "numbering" ->
-         Fail("C19.numbering",
-              C19numbering(T, [x \in CNodes(T) |-> e.num[CHOOSE i \in NIds : ND(i) = x]]))
+         \* (the numbering is about constituents: nothing to judge on the one-node tree)
+         IF CNodes(T) = {} THEN {}
+         ELSE Fail("C19.numbering",
+                   C19numbering(T, [x \in CNodes(T) |-> e.num[CHOOSE i \in NIds : ND(i) = x]]))
     [] e.a = "gap_degree_node" ->
          Fail("C16.node", \A i \in NIds : C16node(ND(i), e.out[i]))
     [] e.a = "terminal_blocks" ->
